@@ -604,6 +604,13 @@ func nodeGen(r *rand.Rand, tier string, prop string) []Case {
 		c = append(c, "blk # dt=6 txs=pc.1.p256|pc.2.bech32")
 		out = append(out, c)
 	}
+	if prop == "C01" {
+		if tier == "thorough" {
+			out = append(out, Case{"upgrade175 # holders=400 runs=6"})
+		} else {
+			out = append(out, Case{"upgrade175 # holders=150 runs=4"})
+		}
+	}
 	return out
 }
 
@@ -730,6 +737,21 @@ func nodeExecHistory(c Case, afterBlock func(*nodeRun, int), atMark func(*nodeRu
 }
 
 func c01Exec(c Case) (outs []string, fails []Failure, tags []string) {
+	if len(c) == 1 && strings.HasPrefix(c[0], "upgrade175") {
+		// the v1.7.5 upgrade handler (goroutine workers) on several forks of one state: the outcome must not depend on scheduling
+		kv := vmKV(strings.Fields(c[0]))
+		seen := UpgradeHandlerOutcomes(func(string, ...interface{}) {}, vmIdx(kv["holders"]), vmIdx(kv["runs"]))
+		tags = append(tags, "upgrade-handler-compared", "replica-compared", "tx:pup")
+		if len(seen) != 1 {
+			var ks []string
+			for k, v := range seen {
+				ks = append(ks, fmt.Sprintf("%d run(s): %s", v, k))
+			}
+			sort.Strings(ks)
+			fails = append(fails, Failure{Signature: "C01:upgrade-handler-nondeterministic", What: "TurnOffLiquidVesting (v1.7.5 upgrade) run on forks of one state gives different results:\n  " + strings.Join(ks, "\n  "), Case: c})
+		}
+		return []string{"ok"}, fails, tags
+	}
 	run, outs, tags := nodeExecHistory(c, nil, nil)
 	if run.w == nil || len(run.blocks) == 0 {
 		return
